@@ -24,6 +24,11 @@ pub mod specialization;
 
 pub use crate::debugger::variable::value::specialization::SpecializedValue;
 
+/// verification hook: lets the out-of-tree harness name the parse context handed to
+/// `QueryResult::modify_value` callbacks (add-only re-export, no behaviour change)
+#[cfg(feature = "verif")]
+pub use crate::debugger::variable::value::parser::ParseContext as VerifParseContext;
+
 #[derive(Debug, thiserror::Error, PartialEq)]
 pub enum AssumeError {
     #[error("field `{0}` not found")]
